@@ -15,7 +15,11 @@ def parseKind (s : String) : Option Kind :=
   else if s.startsWith "cl" then ((s.drop 2).toString.toNat?).map Kind.cl else none
 
 def parseEv (e : String) : Option Ev :=
-  if e == "W" then some .W else
+  if e == "W" then some .W else if e == "A" then some .A else if e == "Q" then some .Q
+  else if e == "S" then some (.S false none) else if e == "Sa" then some (.S true none)
+  else if e.startsWith "Si" then ((e.drop 2).toString.toNat?).map fun v => Ev.S false (some v)
+  else if e == "Ga" then some (.G 0 true)
+  else
   let f := ((e.drop 1).toString).splitOn ":"
   match e.front, f with
   | 'H', [id, es, k] => do pure (.H (← id.toNat?) (← parseBool es) (← parseKind k))
@@ -23,6 +27,12 @@ def parseEv (e : String) : Option Ev :=
   | 'R', [id] => id.toNat?.map .R
   | 'F', [id] => id.toNat?.map .F
   | 'P', [id] => id.toNat?.map .P
+  | 'G', [id] => id.toNat?.map fun i => Ev.G i false
+  | 'U', [id, inc] => do pure (.U (← id.toNat?) (← inc.toNat?))
+  | 'Y', [id, dep, x] => do pure (.Y (← id.toNat?) (← dep.toNat?) (← parseBool x))
+  | 'C', [id] => id.toNat?.map .C
+  | 'X', [id] => id.toNat?.map .X
+  | 'K', [id, es] => do pure (.K (← id.toNat?) (← parseBool es))
   | _, _ => none
 
 def parseOp (op : String) : Option (Nat × List Ev) :=
@@ -41,22 +51,24 @@ def renderSite : PanicSite → String
 def renderOut : Out → String
   | .ok => "ok" | .rst c => "rst:" ++ toString c | .ga c => "ga:" ++ toString c | .close => "close"
   | .held => "held" | .skip => "skip" | .busy => "busy" | .nohandler => "nohandler" | .idle => "idle"
+  | .queued => "queued" | .gone => "gone" | .sfail => "fail"
   | .panic s => "panic:" ++ renderSite s
 
 def insertNat (k : Nat) : List Nat → List Nat
   | [] => [k]
   | x :: r => if x < k then x :: insertNat k r else k :: x :: r
 
-def renderState (c : Conn) : String :=
+def renderState (c : Conn) (flows : Bool := true) : String :=
   let live := (c.ids.foldr insertNat []).filter fun id => (c.streams id).live
-  toString c.maxId ++ ":" ++ toString c.cur ++ ":" ++
+  toString c.maxId ++ ":" ++ toString c.cur ++ ":" ++ toString c.cflow ++ ":" ++ toString c.iws ++ ":" ++
     ",".intercalate (live.map fun id =>
       let s := c.streams id
-      toString id ++ (if s.phase == .opn then "o" else "r") ++ (if s.trailer then "t" else ""))
+      toString id ++ (if s.phase == .opn then "o" else "r") ++ (if s.trailer then "t" else "")
+        ++ (if flows then "(" ++ toString s.flow ++ ")" else ""))
 
-def render (r : Conn × List Out) : String :=
+def render (r : Conn × List Out) (halfUpdated : Bool) : String :=
   let o := ",".intercalate (r.2.map renderOut)
-  (if o.isEmpty then "-" else o) ++ "|" ++ renderState r.1
+  (if o.isEmpty then "-" else o) ++ "|" ++ renderState r.1 (!halfUpdated)
 
 /-! ### spec oracle -/
 inductive CPh | idle | opn | hcr | closed
@@ -70,6 +82,9 @@ structure CView where
   maxId : Nat := 0
   nOpen : Nat := 0                        -- streams open or half-closed(remote) from the server's view
   held : Option Nat := none
+  ga : Option Nat := none                 -- the server announced GOAWAY with this code
+  gone : Bool := false                    -- a framing-level connection error ended the frame reader
+  acks : Nat := 1                         -- SETTINGS of the server not yet acknowledged
 
 def CView.set (v : CView) (id : Nat) (p : CPh) : CView :=
   let was := v.ph id == .opn || v.ph id == .hcr
@@ -77,45 +92,83 @@ def CView.set (v : CView) (id : Nat) (p : CPh) : CView :=
   { v with ph := fun j => if j = id then p else v.ph j,
            nOpen := if was && !now then v.nOpen - 1 else if !was && now then v.nOpen + 1 else v.nOpen }
 
-/-- what RFC 7540 (as listed in C35) demands for event `e` in view `v`: the list of acceptable outcomes
-    ([] = anything that is not an internal failure), and the next view given the reported outcome. -/
-def expect (adv : Nat) (v : CView) (e : Ev) : List String :=
+/-- framing-level connection errors (the frame never reaches processFrame; the reader stops) -/
+def framingErr : Ev → Bool
+  | .H id _ _ => id == 0 | .K id _ => id == 0 | .D id _ _ => id == 0 | .R id => id == 0
+  | .G id _ => id != 0 | .U id inc => id == 0 && inc == 0 | .Y id _ _ => id == 0
+  | .C _ => true | .X _ => true | .S false (some v) => v > 2147483647 | _ => false
+
+def expectH (adv : Nat) (v : CView) (id : Nat) (es : Bool) (k : Kind) : List String :=
+  if id % 2 != 1 then ["ga:1"]
+  else match v.ph id with
+    | .idle =>
+      if id ≤ v.maxId then ["ga:1"]
+      else if v.nOpen + 1 > adv then ["rst:7", "rst:1"]     -- RFC 7540 5.1.2: stream error REFUSED_STREAM / PROTOCOL_ERROR
+      else (match k with | .ok => ["ok"] | .cl _ => ["ok"] | _ => ["rst:1"])
+    | .closed => ["ga:1", "rst:5"]
+    | .hcr => ["rst:5"]
+    | .opn =>
+      if v.tr id then ["ga:1", "rst:1", "rst:5"]
+      else if !es then ["rst:1"]
+      else (match k with | .tr => ["ok"] | _ => ["rst:1"])
+
+/-- what RFC 7540 (as listed in C35) demands for event `e` in view `v` before any GOAWAY -/
+def expect0 (adv : Nat) (v : CView) (e : Ev) : List String :=
   match e with
-  | .H id es k =>
-    if id % 2 != 1 then ["ga:1"]
-    else match v.ph id with
-      | .idle =>
-        if id ≤ v.maxId then ["ga:1"]
-        else if v.nOpen + 1 > adv then ["rst:7", "rst:1", "close"]   -- REFUSED_STREAM / PROTOCOL_ERROR (bfe: closes the connection)
-        else (match k with | .ok => ["ok"] | .cl _ => ["ok"] | _ => ["rst:1"])
-      | .closed => ["ga:1", "rst:5"]
-      | .hcr => ["rst:5"]
-      | .opn =>
-        if v.tr id then ["ga:1", "rst:1", "rst:5"]
-        else if !es then ["rst:1"]
-        else (match k with | .tr => ["ok"] | _ => ["rst:1"])
+  | .H id es k => expectH adv v id es k
+  | .K id es => expectH adv v id es .ok
   | .D id n _ =>
-    if id == 0 then ["ga:1"]
-    else match v.ph id with
+    match v.ph id with
       | .opn =>
         if v.tr id then ["rst:5", "rst:1"]
         else (match v.decl id with
               | some d => if v.got id + n > d then ["rst:1"] else ["ok"]
               | none => ["ok"])
-      | .idle => ["rst:5", "ga:1"]        -- RFC: connection error; bfe answers STREAM_CLOSED (noted deviation)
+      | .idle => if id > v.maxId && id % 2 == 1 then ["ga:1"] else ["rst:5", "ga:1"]   -- RFC 5.1: idle => connection error
       | _ => ["rst:5"]
-  | .R id =>
-    if id == 0 then ["ga:1"]
-    else if v.ph id == .idle && id > v.maxId then ["ga:1"]
-    else ["ok"]
-  | .F _ => ["held", "skip", "busy", "nohandler"]
-  | .P _ => ["held", "skip", "busy", "nohandler"]
+  | .R id => if v.ph id == .idle && id > v.maxId then ["ga:1"] else ["ok"]
+  | .F _ => ["held", "skip", "busy", "nohandler", "queued"]
+  | .P _ => ["held", "skip", "busy", "nohandler", "queued"]
   | .W => ["ok", "idle", "rst:0"]
+  | .S ack iws =>
+    if ack then (if v.acks == 0 then ["ga:1"] else ["ok"])
+    else (match iws with | some x => if x > 2147483647 then ["ga:3"] else ["ok", "ga:3", "fail"] | none => ["ok"])
+  | .G _ _ => ["ok"]
+  | .U id inc =>
+    if inc == 0 then ["rst:1"]
+    else if id == 0 then ["ok", "ga:3"]
+    else if v.ph id == .idle && id > v.maxId then ["ga:1"]     -- RFC 5.1: WINDOW_UPDATE on an idle stream
+    else ["ok", "rst:3"]
+  | .Y _ _ _ => ["ok"]
+  | .C _ => ["ga:1"]
+  | .X _ => ["ga:1"]
+  | .A => ["ok"]
+  | .Q => ["ga:0"]
+
+def expect (adv : Nat) (v : CView) (e : Ev) : List String :=
+  if e.isClient && v.gone then ["gone"]
+  else
+    let base := if framingErr e then (match e with | .S .. => ["ga:3"] | _ => ["ga:1"]) else expect0 adv v e
+    match v.ga with
+    | none => base
+    | some code =>
+      match e with
+      | .H _ _ _ => if framingErr e then ["ok"] else ["ok"]
+      | .K _ _ => ["ok"]
+      | .Q => ["ok"]
+      | .D id _ _ => if !framingErr e && (code != 0 || id > v.maxId) then ["ok"]
+                     else base.map fun o => if o.startsWith "ga:" then "ok" else o
+      | .S _ _ => base.map fun o => if o == "ga:3" then "fail" else if o.startsWith "ga:" then "ok" else o
+      | _ => base.map fun o => if o.startsWith "ga:" then "ok" else o
 
 def advance (v : CView) (e : Ev) (out : String) : CView :=
+  let v := if out.startsWith "ga:" && v.ga.isNone then { v with ga := (out.drop 3).toString.toNat? } else v
+  let v := if framingErr e && e.isClient && out != "gone" then { v with gone := true } else v
+  if out == "gone" then v else
   match e with
   | .H id es k =>
-    if out == "ok" then
+    if v.ga.isSome && !(out.startsWith "ga:") && out == "ok" && v.ph id == .idle && (v.ga != none) && false then v
+    else if out == "ok" && v.ga.isNone then
       match v.ph id with
       | .idle =>
         let v := { v with maxId := id, decl := fun j => if j = id then (match k with | .cl n => if es then some 0 else some n | _ => if es then some 0 else none) else v.decl j }
@@ -126,8 +179,15 @@ def advance (v : CView) (e : Ev) (out : String) : CView :=
       let v := if v.ph id == .idle && id > v.maxId && id % 2 == 1 then { v with maxId := id } else v
       v.set id .closed
     else v
+  | .K id es =>
+    if out == "ok" && v.ga.isNone && v.ph id == .idle then
+      ({ v with maxId := id, decl := fun j => if j = id then (if es then some 0 else none) else v.decl j }).set id (if es then .hcr else .opn)
+    else if out.startsWith "rst" then
+      let v := if v.ph id == .idle && id > v.maxId && id % 2 == 1 then { v with maxId := id } else v
+      v.set id .closed
+    else v
   | .D id n es =>
-    if out == "ok" then
+    if out == "ok" && (v.ph id == .opn) && !(match v.ga with | some code => code != 0 || id > v.maxId | none => false) then
       let v := { v with got := fun j => if j = id then v.got id + n else v.got j }
       if es then v.set id .hcr else v
     else if out.startsWith "rst" then (if v.ph id == .idle then v else v.set id .closed)
@@ -139,18 +199,41 @@ def advance (v : CView) (e : Ev) (out : String) : CView :=
     match v.held with
     | some id => ({ v with held := none }).set id .closed
     | none => v
+  | .S ack _ => if ack && v.acks > 0 then { v with acks := v.acks - 1 } else v
+  | .U id _ => if out.startsWith "rst" && v.ph id != .idle then v.set id .closed else v
+  | _ => v
 
-def classify (e : Ev) (out : String) : String :=
-  let evs := match e with | .H .. => "H" | .D .. => "D" | .R _ => "R" | .F _ => "F" | .P _ => "P" | .W => "W"
-  if out.startsWith "panic:" then "panic-" ++ evs ++ "-" ++ (out.drop 6).toString
-  else "rule-" ++ evs ++ "-got-" ++ (out.replace ":" "")
+def evName : Ev → String
+  | .H .. => "H" | .D .. => "D" | .R _ => "R" | .F _ => "F" | .P _ => "P" | .W => "W" | .S .. => "S" | .G .. => "G"
+  | .U .. => "U" | .Y .. => "Y" | .C _ => "C" | .X _ => "X" | .K .. => "K" | .A => "A" | .Q => "Q"
 
-def judge (adv : Nat) : CView → List Ev → List String → String
-  | _, _, [] => "ok"
-  | _, [], _ :: _ => "FAIL:extra-outcome"
-  | v, e :: es, o :: os =>
-    if (expect adv v e).contains o then judge adv (advance v e o) es os
-    else "FAIL:" ++ classify e o
+def classify (adv : Nat) (v : CView) (e : Ev) (out : String) : String :=
+  if out.startsWith "panic:" then "panic-" ++ evName e ++ "-" ++ (out.drop 6).toString
+  else
+    -- named deviations from RFC 7540 that the code makes on purpose or by omission
+    let overLimit := match e with
+      | .H id _ _ => id % 2 == 1 && v.ph id == .idle && id > v.maxId && v.nOpen + 1 > adv
+      | .K id _ => id % 2 == 1 && v.ph id == .idle && id > v.maxId && v.nOpen + 1 > adv
+      | _ => false
+    let dataIdle := match e with | .D id _ _ => v.ph id == .idle && id > v.maxId && id % 2 == 1 | _ => false
+    let wuIdle := match e with | .U id inc => inc != 0 && id != 0 && v.ph id == .idle && id > v.maxId | _ => false
+    if overLimit && out == "close" then "limit-closes-connection"
+    else if dataIdle && out == "rst:5" then "data-idle-stream-error"
+    else if wuIdle && out == "ok" then "winupdate-idle-ignored"
+    else "rule-" ++ evName e ++ "-got-" ++ (out.replace ":" "")
+
+/-- the first deviation decides the class; deviations that are known findings do not stop the judgement of
+    the rest of the schedule only when they leave the connection alive -/
+def judge (adv : Nat) : CView → List Ev → List String → Option String → String
+  | _, _, [], first => first.getD "ok"
+  | _, [], _ :: _, _ => "FAIL:extra-outcome"
+  | v, e :: es, o :: os, first =>
+    if (expect adv v e).contains o then judge adv (advance v e o) es os first
+    else
+      let cls := classify adv v e o
+      let soft := cls == "data-idle-stream-error" || cls == "winupdate-idle-ignored" || cls == "limit-closes-connection"
+      if soft then judge adv (advance v e o) es os (first <|> some ("FAIL:" ++ cls))
+      else "FAIL:" ++ cls
 
 def run (op impl : String) : Ans :=
   match parseOp op with
@@ -162,9 +245,9 @@ def run (op impl : String) : Ans :=
       | [] => []
     let verdict :=
       if impl.contains "HANG" then "FAIL:hang"
-      else if outs.length < r.2.length && !(outs.getLast?.map (fun o => o.startsWith "ga" || o == "close" || o.startsWith "panic")).getD false
+      else if outs.length < r.2.length && !(outs.getLast?.map (fun o => o == "ga:3" || o == "fail" || o == "close" || o.startsWith "panic")).getD false
         && outs.length < evs.length then "FAIL:short"
-      else judge adv {} evs outs
+      else judge adv {} evs outs none
     let has (p : Out → Bool) := r.2.any p
     let tags :=
       (if has (fun o => match o with | .rst _ => true | _ => false) then ["rst"] else [])
@@ -175,7 +258,17 @@ def run (op impl : String) : Ans :=
       ++ (if has (fun o => match o with | .panic _ => true | _ => false) then ["panic"] else [])
       ++ (if has (fun o => o == .rst 0) then ["rst-noerror"] else [])
       ++ (if evs.any (fun e => match e with | .P _ => true | _ => false) then ["has-P"] else [])
+      ++ (if has (fun o => o == .queued) then ["queued"] else [])
+      ++ (if has (fun o => o == .gone) then ["reader-gone"] else [])
+      ++ (if has (fun o => o == .ga 0) then ["graceful"] else [])
+      ++ (if has (fun o => o == .ga 3 || o == .rst 3) then ["flow-err"] else [])
+      ++ (if evs.any (fun e => match e with | .S .. => true | .G .. => true | .U .. => true | .Y .. => true | .C _ => true | .X _ => true | .K .. => true | .A => true | .Q => true | _ => false) then ["ctl"] else [])
       ++ (if r.2.length ≥ 4 then ["nt"] else [])
-    { model := render r, verdict := verdict, tags := tags }
+    -- the schedule stopped at a rejected SETTINGS: stream windows are not compared (Go map order)
+    let half := match evs[r.2.length - 1]?, r.2.getLast? with
+      | some (.S _ _), some (.ga 3) => true
+      | some (.S _ _), some .sfail => true
+      | _, _ => false
+    { model := render r half, verdict := verdict, tags := tags }
 
 end BfeVerif.C35
